@@ -170,6 +170,35 @@ func runC10(w *W) {
 		stopDisturb := make(chan struct{})
 		var dwg sync.WaitGroup
 		disturbInputs := []string{"SELECT 1 ,\n2", "SELECT a ,\n\n\nb FROM t;\nSELECT 3", "SELECT 'x\ny' ,\n1;\nSELECT 2;\nSELECT 3", "SELECT /* c\n */ 1 ,\n(\n2)"}
+		disturb := func(k int) {
+			in := disturbInputs[k%len(disturbInputs)]
+			switch k % 5 {
+			case 0:
+				ctx, cancel := context.WithCancel(context.Background())
+				cancel()
+				_ = safeParseCtx(ctx, []byte(in), 1<<22)
+			case 1:
+				ctx, cancel := context.WithCancel(context.Background())
+				rd := &cancelAtReader{data: []byte(in), at: 1 + k%len(in), cancel: cancel}
+				_ = guard(func() (string, error) { _, err := parser.Parse(ctx, rd); return "", err })
+				cancel()
+			case 2:
+				rd := &cancelAtReader{data: []byte(in), at: 1 + k%len(in), fail: true}
+				_ = guard(func() (string, error) { _, err := parser.Parse(context.Background(), rd); return "", err })
+			case 3:
+				_ = guard(func() (string, error) {
+					l := lexer.New(strings.NewReader(in))
+					for i := 0; i < 2+k%4; i++ {
+						l.NextToken()
+					}
+					return "", nil
+				})
+			case 4:
+				if obs := safeParse([]byte("SELECT 1, (EXPLAIN SELECT 1 ORDER)"), 1<<22); len(obs.Stmts) > 0 {
+					_ = safeExplain(obs.Stmts[0])
+				}
+			}
+		}
 		for d := 0; d < 2; d++ {
 			dwg.Add(1)
 			go func(d int) {
@@ -180,33 +209,7 @@ func runC10(w *W) {
 						return
 					default:
 					}
-					in := disturbInputs[(k+d)%len(disturbInputs)]
-					switch k % 5 {
-					case 0:
-						ctx, cancel := context.WithCancel(context.Background())
-						cancel()
-						_ = safeParseCtx(ctx, []byte(in), 1<<22)
-					case 1:
-						ctx, cancel := context.WithCancel(context.Background())
-						rd := &cancelAtReader{data: []byte(in), at: 1 + k%len(in), cancel: cancel}
-						_ = guard(func() (string, error) { _, err := parser.Parse(ctx, rd); return "", err })
-						cancel()
-					case 2:
-						rd := &cancelAtReader{data: []byte(in), at: 1 + k%len(in), fail: true}
-						_ = guard(func() (string, error) { _, err := parser.Parse(context.Background(), rd); return "", err })
-					case 3:
-						_ = guard(func() (string, error) {
-							l := lexer.New(strings.NewReader(in))
-							for i := 0; i < 2+k%4; i++ {
-								l.NextToken()
-							}
-							return "", nil
-						})
-					case 4:
-						if obs := safeParse([]byte("SELECT 1, (EXPLAIN SELECT 1 ORDER)"), 1<<22); len(obs.Stmts) > 0 {
-							_ = safeExplain(obs.Stmts[0])
-						}
-					}
+					disturb(k + d)
 				}
 			}(d)
 		}
@@ -281,7 +284,8 @@ func runC10(w *W) {
 		close(stopDisturb)
 		dwg.Wait()
 		// … and sequentially, after the disturbers have stopped: every input once more against its baseline
-		for _, b := range bases {
+		for i, b := range bases {
+			disturb(i) // in this very goroutine: what a pooled object keeps is handed to the next call on the same thread first
 			if o, ok := makeBaseline(b.input); ok {
 				if d := b.diff(o); d != "" {
 					report("cross-talk", "cross-talk@after-disturbed-calls", b.input, d)
